@@ -16,30 +16,30 @@ theorem mem_labels (l : Label) : l ∈ Label.all := by cases l <;> simp [Label.a
 
 def allSt : List St :=
   phases.flatMap fun p => bools.flatMap fun a => bools.flatMap fun b => bools.flatMap fun c =>
-  bools.flatMap fun d => bools.map fun e => ⟨p, a, b, c, d, e⟩
+  bools.flatMap fun d => bools.flatMap fun e => bools.map fun f => ⟨p, a, b, c, d, e, f⟩
 
 theorem mem_allSt (s : St) : s ∈ allSt := by
-  obtain ⟨p, a, b, c, d, e⟩ := s
+  obtain ⟨p, a, b, c, d, e, f⟩ := s
   simp only [allSt, List.mem_flatMap, List.mem_map]
-  exact ⟨p, mem_phases p, a, mem_bools a, b, mem_bools b, c, mem_bools c, d, mem_bools d, e, mem_bools e, rfl⟩
+  exact ⟨p, mem_phases p, a, mem_bools a, b, mem_bools b, c, mem_bools c, d, mem_bools d, e, mem_bools e, f, mem_bools f, rfl⟩
 
-def good1 : Cfg := ⟨1, true⟩
+def good1 : Cfg := ⟨1, true, true⟩
 
 def stateOk (s : St) : Bool :=
   !inv s || (good s && Label.all.all (fun l => match step good1 s l with | none => true | some s' => inv s'))
 
-/-- every raw state (160) × every label, evaluated by the kernel -/
+/-- every raw state (320) × every label, evaluated by the kernel -/
 theorem check : (allSt.all stateOk) = true := by decide +kernel
 
 /-- only "capacity 0 or not" matters -/
-theorem step_cap (c : Cfg) (h : 1 ≤ c.cap) (s : St) (l : Label) : step c s l = step ⟨1, c.drainFirst⟩ s l := by
+theorem step_cap (c : Cfg) (h : 1 ≤ c.cap) (s : St) (l : Label) : step c s l = step ⟨1, c.drainFirst, c.ownCtx⟩ s l := by
   have h0 : (c.cap == 0) = false := by simp; omega
   have h1 : decide (0 < c.cap) = true := by simp; omega
   cases l <;> simp [step, h0, h1]
 
-theorem inv_step (c : Cfg) (hcap : 1 ≤ c.cap) (hd : c.drainFirst = true) (s s' : St) (l : Label)
+theorem inv_step (c : Cfg) (hcap : 1 ≤ c.cap) (hd : c.drainFirst = true) (ho : c.ownCtx = true) (s s' : St) (l : Label)
     (hi : inv s = true) (hs : step c s l = some s') : inv s' = true ∧ good s = true := by
-  rw [step_cap c hcap, hd] at hs
+  rw [step_cap c hcap, hd, ho] at hs
   have h := List.all_eq_true.mp check s (mem_allSt s)
   unfold stateOk at h
   rw [hi] at h
@@ -50,7 +50,7 @@ theorem inv_step (c : Cfg) (hcap : 1 ≤ c.cap) (hd : c.drainFirst = true) (s s'
   rw [hs] at this
   exact ⟨this, h.1⟩
 
-theorem inv_run (c : Cfg) (hcap : 1 ≤ c.cap) (hd : c.drainFirst = true) (ls : List Label) :
+theorem inv_run (c : Cfg) (hcap : 1 ≤ c.cap) (hd : c.drainFirst = true) (ho : c.ownCtx = true) (ls : List Label) :
     ∀ s s', inv s = true → run c s ls = some s' → inv s' = true := by
   induction ls with
   | nil => intro s s' hi hr; simp [run] at hr; subst hr; exact hi
@@ -59,21 +59,22 @@ theorem inv_run (c : Cfg) (hcap : 1 ≤ c.cap) (hd : c.drainFirst = true) (ls : 
     simp only [run] at hr
     cases hs : step c s l with
     | none => rw [hs] at hr; cases hr
-    | some s1 => rw [hs] at hr; exact ih s1 s' (inv_step c hcap hd s s1 l hi hs).1 hr
+    | some s1 => rw [hs] at hr; exact ih s1 s' (inv_step c hcap hd ho s s1 l hi hs).1 hr
 
-/-- **C02.** With a reply channel of capacity at least one and a caller that
-looks at it before honouring the close notification, for every schedule of
+/-- **C02.** With a reply channel of capacity at least one, a caller that
+looks at it before honouring the close notification, and the caller's own
+context handed on unchanged down to the final select, for every schedule of
 reader, caller, peer and clock (the reply may arrive before `Write` returns,
 between send and wait, or while waiting; the peer may close right after it):
 * a reply read from the connection is never released undelivered;
 * the caller returns the close error only if no reply had arrived, the
   context error only if its context had ended;
 * whenever the caller is parked and its reply has arrived, taking it is enabled. -/
-theorem reply_not_lost (c : Cfg) (hcap : 1 ≤ c.cap) (hd : c.drainFirst = true) (ls : List Label) (s : St)
+theorem reply_not_lost (c : Cfg) (hcap : 1 ≤ c.cap) (hd : c.drainFirst = true) (ho : c.ownCtx = true) (ls : List Label) (s : St)
     (hr : run c {} ls = some s) :
     s.dropped = false ∧ (s.phase = .gotCloseErr → s.arrived = false) ∧ (s.phase = .gotCtxErr → s.ctxDone = true) ∧
     (s.phase = .waiting → s.arrived = true → step c s .pickReply = some { s with phase := .gotReply, buffered := false }) := by
-  have hi := inv_run c hcap hd ls {} s (by decide) hr
+  have hi := inv_run c hcap hd ho ls {} s (by decide) hr
   have h := List.all_eq_true.mp check s (mem_allSt s)
   unfold stateOk at h
   rw [hi] at h
@@ -97,20 +98,72 @@ theorem reply_not_lost (c : Cfg) (hcap : 1 ≤ c.cap) (hd : c.drainFirst = true)
 /-- The defects repaired by a8404aa and 665679f, as witness schedules of the
 model: with an unbuffered channel a reply that arrives before the caller is
 parked is dropped; without the drain the close error can win over a delivered reply. -/
-theorem unbuffered_drops : ∃ s, run ⟨0, true⟩ {} [.readerDeliver] = some s ∧ s.dropped = true := ⟨_, rfl, rfl⟩
-theorem no_drain_loses : ∃ s, run ⟨1, false⟩ {} [.readerDeliver, .readerClose, .writeReturns, .pickClose] = some s ∧
+theorem unbuffered_drops : ∃ s, run ⟨0, true, true⟩ {} [.readerDeliver] = some s ∧ s.dropped = true := ⟨_, rfl, rfl⟩
+theorem no_drain_loses : ∃ s, run ⟨1, false, true⟩ {} [.readerDeliver, .readerClose, .writeReturns, .pickClose] = some s ∧
     s.phase = .gotCloseErr ∧ s.arrived = true := ⟨_, rfl, rfl, rfl⟩
+
+/-- A layer that waits on a context of its own making (e.g. "the caller's context, but at most one dial timeout")
+can give up with the context error while the caller's deadline is still ahead: the reply that arrives afterwards
+finds nobody waiting. Hence the hypothesis `ownCtx` of `reply_not_lost` and the guard `c02CallerCtxReachesWait`. -/
+theorem derived_ctx_loses : ∃ s, run ⟨1, true, false⟩ {} [.writeReturns, .innerExpire, .pickCtx, .readerDeliver] = some s ∧
+    s.phase = .gotCtxErr ∧ s.ctxDone = false ∧ s.arrived = true := ⟨_, rfl, rfl, rfl, rfl⟩
+
+/-! ### DoH: the reply is the response body, in whatever pieces it arrives -/
+section Doh
+open Model.C02.Doh
+
+theorem readToEOF_eq (s : Go.Stream) : ∀ (lim : Nat) (acc : Bytes), readToEOF s lim acc = acc ++ s.flatten.take lim := by
+  induction s with
+  | nil => intro lim acc; simp [readToEOF]
+  | cons c rest ih =>
+    intro lim acc
+    simp only [readToEOF, List.flatten_cons]
+    by_cases h0 : lim = 0
+    · simp [h0]
+    · simp only [h0, if_false]
+      by_cases hle : c.length ≤ lim
+      · simp only [hle, if_true]
+        rw [ih, List.take_append, List.take_of_length_le hle, List.append_assoc]
+      · simp only [hle, if_false]
+        have : lim ≤ c.length := by omega
+        rw [List.take_append_of_le_length this]
+
+/-- **C02 (DoH).** A 200 response whose body - however it is cut into pieces, one `Read` per piece or finer - adds
+up to a DNS message `m` (12..65535 bytes) makes the exchange return `m` with the caller's id: no chunking of a
+complete body turns it into an error or a different message. -/
+theorem doh_reply_not_lost (body : Go.Stream) (m qid : Bytes) (hb : body.flatten = m)
+    (h12 : 12 ≤ m.length) (hmax : m.length ≤ 65535) :
+    exchange true qid body = .reply (qid ++ m.drop 2) := by
+  have hr : readToEOF body maxMsgSize [] = m := by
+    rw [readToEOF_eq, hb]; simp [maxMsgSize, List.take_of_length_le hmax]
+  simp only [exchange, if_true, hr, headerLen]
+  have : ¬ m.length < 12 := by omega
+  simp [this]
+
+theorem doh_chunking_irrelevant (b1 b2 : Go.Stream) (qid : Bytes) (h : b1.flatten = b2.flatten) :
+    exchange true qid b1 = exchange true qid b2 := by
+  simp only [exchange, if_true, readToEOF_eq, h]
+
+/-- A reader that takes what ONE `Read` returns loses a complete reply as soon as it arrives in two pieces
+(here: the 12-byte header, then the rest). Hence the guard `c02DohBodyReadToEOF`. -/
+theorem doh_single_read_loses : ∃ (hdr rest : Bytes), hdr.length = 12 ∧ rest ≠ [] ∧
+    exchange false [0, 7] [hdr, rest] ≠ exchange true [0, 7] [hdr, rest] :=
+  ⟨List.replicate 12 0, [1], rfl, by decide, by decide⟩
+
+end Doh
 
 /-! ### Guards over the regenerated facts -/
 theorem facts_guard :
     (∃ n, Gen.Facts.c02TdcRespChanCap = some n ∧ 1 ≤ n) ∧ (∃ n, Gen.Facts.c02ReuseRespChanCap = some n ∧ 1 ≤ n) ∧
     Gen.Facts.c02TdcDrainsOnClose = some true ∧ Gen.Facts.c02ReuseDrainsOnClose = some true ∧
     Gen.Facts.c02ReaderHandsOffNonBlocking = some true ∧ Gen.Facts.c02ReuseChanInstalledBeforeWrite = some true ∧
-    Gen.Facts.c02NoEarlyCloseCheckAfterWrite = some true := by
+    Gen.Facts.c02NoEarlyCloseCheckAfterWrite = some true ∧
+    Gen.Facts.c02CallerCtxReachesWait = some true ∧ Gen.Facts.c02DohBodyReadToEOF = some true ∧
+    Gen.Facts.c02DohWaitsOnCallerCtx = some true := by
   refine ⟨⟨1, by decide⟩, ⟨1, by decide⟩, ?_⟩
   decide
 
 /-! ### Non-vacuity: reply during the send, then EOF, then the caller parks -/
-example : (run ⟨1, true⟩ {} [.readerDeliver, .readerClose, .writeReturns, .pickClose]).map (·.phase) = some .gotReply := by decide
+example : (run ⟨1, true, true⟩ {} [.readerDeliver, .readerClose, .writeReturns, .pickClose]).map (·.phase) = some .gotReply := by decide
 
 end Props.C02
